@@ -337,9 +337,9 @@ Definition style_fields (s : style) : list (str * tag) :=
 (* element tag of a []any argument list: getTagType looks at the FIRST element only *)
 Definition arg_id (x : arg) : N := match x with AM _ => idCompound | AS _ => idString end.
 
-(* force_text = the struct shape has no omitempty on "text": rawMsgStruct (Translate == "") and the
-   plain Message struct that the list encoder writes WITHOUT calling MarshalNBT.  The value of a
-   hover event goes through MarshalNBT again (shape chosen by its own Translate). *)
+(* force_text = the struct shape has no omitempty on "text": rawMsgStruct (Translate == "").  Since repo fix
+   9a422e7 the list encoder calls the elements' MarshalNBT (before it wrote the plain Message struct), so the
+   elements of "with" and "extra", like the value of a hover event, choose their shape by their own Translate. *)
 Fixpoint fields_of (force_text : bool) (m : msg) : list (str * tag) :=
   match m with
   | Msg t s h tr w e =>
@@ -356,11 +356,11 @@ Fixpoint fields_of (force_text : bool) (m : msg) : list (str * tag) :=
          | [] => []
          | x0 :: _ =>
              [(k_with, TList (arg_id x0)
-                 (map (fun x => match x with AM m' => TComp (fields_of true m') | AS z => TStr z end) w))]
+                 (map (fun x => match x with AM m' => TComp (fields_of (is_nil (m_translate m')) m') | AS z => TStr z end) w))]
          end
       ++ match e with
          | [] => []
-         | _ => [(k_extra, TList idCompound (map (fun m' => TComp (fields_of true m')) e))]
+         | _ => [(k_extra, TList idCompound (map (fun m' => TComp (fields_of (is_nil (m_translate m')) m')) e))]
          end
   end.
 
